@@ -91,6 +91,19 @@ CLAIMED = {
         "every refused call of the implementation.",
         "Trusted: see evidence.trusted_base. Call sites on dimension descriptors, data writes and data frames are not yet modelled.",
         "DESIGN.md section 5 C12", TECH),
+    "C19": (
+        "Coq theorems: (calendar) every whole second in [1970, 2100) survives time_to_str then str_to_time - the day<->civil part "
+        "by a kernel-checked sweep over all 47 482 days lifted to a forall, fixed-width decimal print/parse proven for every width, "
+        "format strings translated from util.py; (operations, over the API model) no setter / link operation / deletion / lookup / "
+        "reopen changes the creation time of any existing entity; with automatic timestamps off those operations change no "
+        "timestamp at all; with them on a successful setter of a listed attribute sets exactly its own entity's update time to the "
+        "clock and no other's; forced times read back. The model performs the guarded update exactly when the table extracted by "
+        "ast from the current source lists the setter, and c19_table_complete requires every attribute named by the property to "
+        "be in that table (so removing a guarded call breaks the build). Tie: clocked histories with toggled switch and force "
+        "calls, timestamps of all entities in the compared walk, trace predicates on the implementation; calendar stream under 2 TZ.",
+        "Trusted: see evidence.trusted_base; datetime.utcfromtimestamp/strftime/strptime = proleptic Gregorian arithmetic with "
+        "fixed-width fields (Pure/Calendar.v), tied by correspondence; Property setters and dimension setters not modelled.",
+        "DESIGN.md section 5 C19", TECH),
 }
 
 PENDING_REASON = ("check not built yet in this revision (work in progress: the property is meant to be decided by Coq "
